@@ -72,5 +72,5 @@ Proof. vm_compute. repeat split; reflexivity. Qed.
 Example C01_failure_nonvacuous :
   let '(d1, bs) := phase1 ex_cfg 1 1 ex_prog ex_d0 in
   let r := rollback_branch ex_cfg (Some 5%nat) d1 (1%N, 2%N) in
-  r_fired r = true /\ r_out r = None /\ r_ops (rollback_branch ex_cfg None d1 (1%N, 2%N)) = 12%nat.
+  r_fired r = true /\ r_out r = status_plain_error /\ r_ops (rollback_branch ex_cfg None d1 (1%N, 2%N)) = 12%nat.
 Proof. vm_compute. repeat split; reflexivity. Qed.
